@@ -85,6 +85,12 @@ class World(object):
                     for k in range(450, 1250, 131):       # scatter readings above the nominal range: outside every density-gate grid
                         vals[k][0] = 1200.0 + k
                         vals[k + 3][1] = 1100.0 + k
+                    # scatter readings below zero (baseline-subtracted debris): float files are not gated for saturation, so
+                    # these reach the density gate and set the linear width of each scatter axis' logicle bins - a different
+                    # most negative reading per channel, and in the side scatter of the two files two values a hair apart
+                    for q, k in enumerate(range(465, 1265, 131)):
+                        vals[k][0] = -40.0 + 5.0 * q
+                        vals[k + 2][1] = -(95.0 if tag == 'float' else 94.0) + 11.0 * q
                     fpne = pne[:4] + ['0,0'] + pne[5:]
                     fpng = [None, None, None, None, '2.5', None]        # the linear channel has an amplifier gain
                 fcsgen.write_sample(p, vals, names, [1024] * 6, bits=16, datatype=dt, pne=fpne, pnv=pnv, png=(fpng if dt != 'I' else None), extra=extra)
@@ -264,8 +270,11 @@ class World(object):
                 elif fn == 'high_low':
                     s = FlowCal.gate.high_low(s, spec['sc'] + reported)
                 elif fn == 'density2d':
-                    s = FlowCal.gate.density2d(s, channels=spec['sc'], gate_fraction=table_row['Gate Fraction'], xscale='logicle',
-                                               yscale='logicle')
+                    # by hand the grid is spelled out: each scatter axis' own 1024 logicle bins (computed on that column
+                    # alone), which is what the default `bins=1024` is documented to mean
+                    edges = [s[:, [c]].hist_bins(0, 1024, 'logicle') for c in spec['sc']]
+                    s = FlowCal.gate.density2d(s, channels=spec['sc'], bins=edges, gate_fraction=table_row['Gate Fraction'],
+                                               xscale='logicle', yscale='logicle')
                 else:
                     raise ValueError(fn)
         return s
